@@ -12,6 +12,11 @@
                            AsyncAndSyncPairDecorator.__call__/__get__ 241-280
                            AsyncProxyDecorator._call_pure 304-308, async_proxy 364-378
                            async_call 398-414, AsyncWrapper 417-440, make_async_decorator 443-452
+                           PureAsyncDecorator._fn_wrapper 165-168 / _call_pure 179-187 (every run of fn's
+                             body is wrapped in a task of its own), AsyncDecorator.__call__ 219-230
+     asynq/async_task.py   AsyncTask._continue 164-206 (StopIteration value / AsyncTaskResult raised by
+                             utils.result 22-27 both finish THE TASK WHOSE GENERATOR RAISED IT),
+                           get_active_task (scheduler.py 336) as seen by a body
      asynq/tools.py        acached_per_instance 165-209, alru_cache 212-252, aretry 286-313,
                            DeduplicateDecoratorBinder/DeduplicateDecorator/deduplicate 333-428
    ARGS abbreviates Python's star-args, star-star-kwargs.
@@ -56,7 +61,28 @@ Inductive form :=
 | ViaGetAsync          (* get_async_fn(t)(ARGS).value()                *)
 | ViaGetAsyncOrSync.   (* get_async_or_sync_fn(t)(ARGS) [.value()]     *)
 
-Inductive bodykind := BPlain | BGenConst | BGenTask | BBatch.
+(* what the body does before it returns; the ...Own shapes look at get_active_task(): is it a task
+   made for this very function (plain body / generator body after a yield) *)
+Inductive shape := BPlain | BGenConst | BGenTask | BBatch | BPlainOwn | BGenOwn.
+(* how the body hands its value back:  return v   /   result(v); return  (raises AsyncTaskResult) *)
+Inductive retstyle := RetReturn | RetResult.
+Inductive bodykind := BK (s : shape) (r : retstyle).
+Definition bshape (bk : bodykind) : shape := match bk with BK s _ => s end.
+Definition bret (bk : bodykind) : retstyle := match bk with BK _ r => r end.
+(* where the calling form is executed *)
+Inductive ctx :=
+| CTop            (* at top level: no task is running                                            *)
+| CGen            (* in the generator body of a running task                                     *)
+| CPlain          (* in the plain (non-generator) body of a running task (_fn_wrapper)           *)
+| CNested.        (* in a plain-bodied task that a generator task called synchronously           *)
+(* get_active_task() as seen by a body *)
+Inductive active := ANone | ACaller | AOwn.
+(* what became of the task the form was executed in *)
+Inductive caller :=
+| CallerNone          (* top level: there is none                                                *)
+| CallerOwn           (* it went on and finished with its own value / the propagated exception   *)
+| CallerHijacked.     (* it was finished early with the callee's value (AsyncTaskResult escaped) *)
+Definition E_TASKRESULT : exn := -30.     (* AsyncTaskResult reaching the top level as an exception *)
 Inductive kname := Ka | Kb | Kk | Kz.            (* Kz: a keyword the body does not have *)
 Inductive recv := RObj | RSubObj | RCls | RSubCls.
 Inductive mtype := TNone | TClassmethod | TStaticmethod.     (* DecoratorBase.type *)
@@ -155,8 +181,16 @@ Definition get_async_kind (d : deco) (b : binding) : gkind :=
 Definition get_async_or_sync_kind (d : deco) (b : binding) : gkind :=
   if has_asynq_attr d b then GAsynqAttr else GSelf.
 
-Definition extra (bk : bodykind) : Z :=
-  match bk with BPlain => 0 | BGenConst => 5 | BGenTask => 6 | BBatch => 7 end.
+Definition ctx_active (c : ctx) : active := match c with CTop => ANone | _ => ACaller end.
+Definition caller_of (c : ctx) : caller := match c with CTop => CallerNone | _ => CallerOwn end.
+
+(* the last component of the value a body returns: what it yielded / observed *)
+Definition extra (bk : bodykind) (act : active) : Z :=
+  match bshape bk with
+  | BPlain => 0 | BGenConst => 5 | BGenTask => 6 | BBatch => 7
+  | BPlainOwn => match act with AOwn => 8 | ACaller => 9 | ANone => 10 end
+  | BGenOwn => match act with AOwn => 11 | ACaller => 12 | ANone => 13 end
+  end.
 Definition tagnum (t : tag) : Z := match t with FnBody => 1 | SyncBody => 2 end.
 Definition is_verr (e : exn) : bool := 900 <=? e.
 
@@ -164,6 +198,7 @@ Section Args.
   Variable A : Type.                 (* user argument values *)
   Variable raises : A -> bool.       (* the body raises VErr when its parameter a satisfies this *)
   Variables dflt_b dflt_k : A.       (* defaults of  def body([recv,] a, b=dflt_b, *, k=dflt_k) *)
+  Variable cx : ctx.                 (* where the calling form is executed *)
 
   Inductive arg := AObj (r : recv) | AVal (a : A).
   Definition kwargs := list (kname * arg).
@@ -175,7 +210,10 @@ Section Args.
   | VBody (t : tag) (a b k : arg) (x : Z)
   | VWrapped (v : rval)
   | VFuture.                                               (* an unresolved future object as a value *)
-  Inductive res := ROk (v : rval) | RErr (e : exn).
+  Inductive res :=
+  | ROk (v : rval)
+  | RErr (e : exn)
+  | RResult (v : rval).      (* AsyncTaskResult(v) in flight: finishes the first task frame it reaches *)
   Definition effect : Type := list call * res.
 
   Fixpoint kw_get (n : kname) (kw : kwargs) : option arg :=
@@ -203,19 +241,33 @@ Section Args.
 
   Definition arg_raises (a : arg) : bool := match a with AVal v => raises v | AObj _ => false end.
 
-  (* calling the raw function fn(ARGS) and running the resulting body to the end *)
-  Definition run_fn (t : tag) (st : style) (bk : bodykind) (pos : list arg) (kw : kwargs) : effect :=
+  (* calling the raw function fn(ARGS) and running the resulting body to the end IN THE CURRENT FRAME
+     (act = what get_active_task() is there); result(v) leaves it as AsyncTaskResult(v) *)
+  Definition run_fn (t : tag) (st : style) (bk : bodykind) (act : active) (pos : list arg) (kw : kwargs) : effect :=
     let go (r : option arg) (rest : list arg) : effect :=
         match bind3 rest kw with
         | None => ([], RErr E_TYPEERROR)
         | Some (a, b, k) =>
           ([CBody t r a b k],
-           if arg_raises a then RErr (900 + tagnum t) else ROk (VBody t a b k (extra bk)))
+           if arg_raises a then RErr (900 + tagnum t)
+           else let v := VBody t a b k (extra bk act) in
+                match bret bk with RetReturn => ROk v | RetResult => RResult v end)
         end in
     match st with
     | SFunc => go None pos
     | SSelf | SCls => match pos with [] => ([], RErr E_TYPEERROR) | r :: rest => go (Some r) rest end
     end.
+
+  (* a task of its own around a body: AsyncTask._continue 183-201 turns the generator's return value
+     and an AsyncTaskResult into the value of that task; other exceptions become its error *)
+  Definition task_frame (e : effect) : effect :=
+    (fst e, match snd e with RResult v => ROk v | r => r end).
+
+  (* PureAsyncDecorator._call_pure 179-187: task_cls(generator or _fn_wrapper, fn, ...) — fn's body
+     always runs inside a task made for it (for a proxy the harness body hands back inner.asynq(...),
+     inner being an @asynq() function: same thing) *)
+  Definition own_task (st : style) (bk : bodykind) (pos : list arg) (kw : kwargs) : effect :=
+    task_frame (run_fn FnBody st bk AOwn pos kw).
 
   Definition prepend (i : option recv) (pos : list arg) : list arg :=
     match i with Some r => AObj r :: pos | None => pos end.
@@ -224,7 +276,7 @@ Section Args.
   Definition dup_on_raise (e : effect) : effect :=
     match snd e with
     | RErr x => if is_verr x then (fst e ++ fst e, snd e) else e
-    | ROk _ => e
+    | _ => e
     end.
 
   (* acached_per_instance: weakref.ref(self) first — TypeError for a self that is a plain value *)
@@ -237,12 +289,12 @@ Section Args.
      | AObj r :: rest => CWrap (Some r) (Z.of_nat (length rest)) (Z.of_nat (length kw))
      | _ => CWrap None (Z.of_nat (length pos)) (Z.of_nat (length kw))
      end :: fst e,
-     match snd e with ROk v => ROk (VWrapped v) | RErr x => RErr x end).
+     match snd e with ROk v => ROk (VWrapped v) | r => r end).
 
   (* effect of the asynchronous path once the full positional list is known:
      PureAsyncDecorator._call_pure -> fn(ARGS) ; the wrappers of tools.py yield fn.asynq(ARGS) *)
   Definition async_effect (d : deco) (st : style) (bk : bodykind) (pos : list arg) (kw : kwargs) : effect :=
-    let e := run_fn FnBody st bk pos kw in
+    let e := own_task st bk pos kw in
     match d with
     | DRetry => dup_on_raise e
     | DCpi => cpi_guard pos e
@@ -259,7 +311,8 @@ Section Args.
     : retkind * effect :=
     match d with
     | DPure | DProxyPure => (KFuture, async_effect d st bk pos kw)
-    | DPair => (KValue, run_fn SyncBody st BPlain (prepend sb pos) kw)
+    | DPair =>        (* sync_fn(ARGS): an ordinary call, in the caller's frame *)
+      (KValue, run_fn SyncBody st (BK BPlain RetReturn) (ctx_active cx) (prepend sb pos) kw)
     | _ => (KValue, async_effect d st bk pos kw)           (* _call_pure(args, kwargs).value() *)
     end.
 
@@ -294,12 +347,12 @@ Section Args.
          | None =>                                            (* ConstFuture(fn(ARGS)) *)
            match target_call d b bk pos kw with
            | (KValue, e) => e
-           | (KFuture, e) => match snd e with ROk _ => (fst e, ROk VFuture) | RErr _ => e end
+           | (KFuture, e) => match snd e with ROk _ => (fst e, ROk VFuture) | _ => e end
            end
          end.
 
   Definition finish (s : status) (e : effect) : status * list call * res :=
-    match snd e with RErr _ => (SRaised, fst e, snd e) | ROk _ => (s, fst e, snd e) end.
+    match snd e with RErr _ => (SRaised, fst e, snd e) | _ => (s, fst e, snd e) end.
 
   Definition via_asynq (d : deco) (b : binding) (bk : bodykind) (pos : list arg) (kw : kwargs) :=
     match target_asynq d b bk pos kw with
@@ -330,6 +383,22 @@ Section Args.
       | _ => via_call SRetValue d b bk pos kw
       end
     end.
+
+  (* the form executed in context cx: an AsyncTaskResult that no task frame of the callee caught
+     finishes the CALLING task (its generator / _fn_wrapper raised it: async_task.py 193-196); at top
+     level it is just an exception *)
+  Definition in_ctx (x : status * list call * res) : caller * (status * list call * res) :=
+    match x with
+    | (s, cs, RResult v) =>
+      match cx with
+      | CTop => (CallerNone, (SRaised, cs, RErr E_TASKRESULT))
+      | _ => (CallerHijacked, (s, cs, ROk v))
+      end
+    | _ => (caller_of cx, x)
+    end.
+
+  Definition invoke_ctx (d : deco) (b : binding) (f : form) (pos : list arg) (kw : kwargs) (bk : bodykind) :=
+    in_ctx (invoke d b f pos kw bk).
 End Args.
 
 Arguments AObj {A} r.
@@ -341,6 +410,7 @@ Arguments VWrapped {A} v.
 Arguments VFuture {A}.
 Arguments ROk {A} v.
 Arguments RErr {A} e.
+Arguments RResult {A} v.
 
 (* the bindings each decorator is written for *)
 Definition valid (d : deco) (b : binding) : bool :=
@@ -353,12 +423,17 @@ Definition valid (d : deco) (b : binding) : bool :=
 Definition all_decos := [DAsynq; DPure; DProxy; DProxyPure; DPair; DWrap; DDedup; DRetry; DLru; DCpi].
 Definition all_bindings := [BFunc; BInst; BClass; BSub; BCmClass; BCmInst; BCmSub; BSmClass; BSmInst].
 Definition all_forms := [Sync; AsynqValue; YieldAsynq; AsyncCall; YieldDirect; ViaGetAsync; ViaGetAsyncOrSync].
-Definition all_bodykinds := [BPlain; BGenConst; BGenTask; BBatch].
+Definition all_shapes := [BPlain; BGenConst; BGenTask; BBatch; BPlainOwn; BGenOwn].
+Definition all_retstyles := [RetReturn; RetResult].
+Definition all_bodykinds := map (fun p => BK (fst p) (snd p)) (list_prod all_shapes all_retstyles).
+Definition all_ctxs := [CTop; CGen; CPlain; CNested].
 
 (* entry point of the correspondence: A := Z, the body raises on a = 99, defaults 20 and 30;
-   for BClass the instance is passed explicitly unless explicit = false *)
-Definition run_case (d : deco) (b : binding) (explicit : bool) (pos : list Z) (kw : list (kname * Z)) (bk : bodykind) :=
+   for BClass the instance is passed explicitly unless explicit = false; every form is executed in
+   context cx *)
+Definition run_case (d : deco) (b : binding) (explicit : bool) (pos : list Z) (kw : list (kname * Z)) (bk : bodykind)
+                    (cx : ctx) :=
   let upos := (match b with BClass => if explicit then [AObj RObj] else [] | _ => [] end) ++ map AVal pos in
   let ukw := map (fun p => (fst p, AVal (snd p))) kw in
-  (map (fun f => invoke Z (fun z => z =? 99) 20 30 d b f upos ukw bk) all_forms,
+  (map (fun f => invoke_ctx Z (fun z => z =? 99) 20 30 cx d b f upos ukw bk) all_forms,
    (is_async d b, is_pure d b, has_async d b, get_async_kind d b, get_async_or_sync_kind d b)).
